@@ -58,6 +58,7 @@ type Universe struct {
 	heapStores map[*ssa.Alloc][]heapStore
 	heapSeen   map[string]bool
 	callBusy   map[*ssa.Call]bool
+	allocBusy  map[*ssa.Alloc]bool
 }
 
 // LoadError describes a failure to obtain a complete, type-correct program.
@@ -118,6 +119,7 @@ func Load(root, dir, goos string, patterns ...string) (*Universe, error) {
 		heapStores: map[*ssa.Alloc][]heapStore{},
 		heapSeen:   map[string]bool{},
 		callBusy:   map[*ssa.Call]bool{},
+		allocBusy:  map[*ssa.Alloc]bool{},
 	}
 	var errs []string
 	packages.Visit(initial, nil, func(p *packages.Package) {
